@@ -82,6 +82,21 @@ def FlModel.exact (F : Type) [Field F] [LinearOrder F] [IsStrictOrderedRing F] :
   div_rnd := fun _ _ _ => Rnd.zero_iff.mpr rfl
   fma_rnd := fun _ _ _ => Rnd.zero_iff.mpr rfl
 
+/-- a deterministic, total, genuinely inexact arithmetic obeying the model for any `u ≥ 0`: every
+result is inflated by the factor `1 + u` (a worst case of "round away from zero") -/
+def FlModel.inflate (u : F) (hu : 0 ≤ u) : FlModel F where
+  u := u
+  add := fun x y => (x + y) * (1 + u)
+  sub := fun x y => (x - y) * (1 + u)
+  mul := fun x y => (x * y) * (1 + u)
+  div := fun x y => (x / y) * (1 + u)
+  fma := fun x y z => (x * y + z) * (1 + u)
+  add_rnd := fun _ _ => ⟨u, le_of_eq (abs_of_nonneg hu), rfl⟩
+  sub_rnd := fun _ _ => ⟨u, le_of_eq (abs_of_nonneg hu), rfl⟩
+  mul_rnd := fun _ _ => ⟨u, le_of_eq (abs_of_nonneg hu), rfl⟩
+  div_rnd := fun _ _ _ => ⟨u, le_of_eq (abs_of_nonneg hu), rfl⟩
+  fma_rnd := fun _ _ _ => ⟨u, le_of_eq (abs_of_nonneg hu), rfl⟩
+
 /-! ### (b) `gamma` and perturbation factors -/
 
 /-- `γ_k = k u / (1 - k u)` -/
@@ -702,6 +717,37 @@ theorem Dot.bound_range {u : F} (hu0 : 0 ≤ u) {c bk y : F} (a b : Nat → F) (
     |c - ∑ i ∈ range k, a i * b i - bk * y| ≤ gamma u K * (∑ i ∈ range k, |a i| * |b i| + |bk| * |y|) := by
   have := h.bound_le hu0 (K := K) (by simpa using hK) hk
   rwa [dotSum_range, dotAbs_range] at this
+
+/-! #### monotonicity in `u`: operations carried out more accurately (extended registers, a
+wider accumulator, exact products) are covered by the same hypotheses -/
+
+theorem STree.Eval.mono {u u' : F} (h : u ≤ u') {s : STree F} {y : F} (hs : s.Eval u y) : s.Eval u' y := by
+  induction hs with
+  | leaf hr => exact .leaf (hr.mono h)
+  | add _ _ hr ihs iht => exact .add ihs iht (hr.mono h)
+  | sub _ _ hr ihs iht => exact .sub ihs iht (hr.mono h)
+  | neg _ ih => exact .neg ih
+  | fma _ hr ih => exact .fma ih (hr.mono h)
+  | fms _ hr ih => exact .fms ih (hr.mono h)
+
+theorem CTree.Eval.mono {u u' : F} (h : u ≤ u') {T : CTree F} {y : F} (hT : T.Eval u y) : T.Eval u' y := by
+  induction hT with
+  | lit c => exact .lit c
+  | sub _ hs hr ih => exact .sub ih (hs.mono h) (hr.mono h)
+  | add _ hs hr ih => exact .add ih (hs.mono h) (hr.mono h)
+  | fms _ hr ih => exact .fms ih (hr.mono h)
+  | fma _ hr ih => exact .fma ih (hr.mono h)
+
+theorem Dot.mono {u u' c bk y : F} (h : u ≤ u') {l : List (F × F)} {f : Finish}
+    (hd : Dot u c l bk f y) : Dot u' c l bk f y := by
+  obtain ⟨T, hc, hperm, w, hw, hf⟩ := hd
+  refine ⟨T, hc, hperm, w, hw.mono h, ?_⟩
+  cases f with
+  | none => exact hf
+  | div => exact ⟨hf.1, hf.2.mono h⟩
+  | recip =>
+    obtain ⟨hb, ρ, h1, h2⟩ := hf
+    exact ⟨hb, ρ, h1.mono h, h2.mono h⟩
 
 /-! #### sparsity: skipped zero terms
 
